@@ -215,7 +215,7 @@ def _atom_lb(a, ranges):
             return lower_bound(a.args[1], ranges)
         if a.name == "abs" and a.args:
             return 0.0
-        if a.name in ("getitem", "reshape", "T", "astype", "float", "asarray", "array") and a.args:
+        if a.name in ("getitem", "reshape", "T", "astype", "float", "asarray", "array", "grid") and a.args:
             return lower_bound(a.args[0], ranges) if isinstance(a.args[0], Rat) else None
     return None
 
